@@ -71,7 +71,7 @@ theorem restFields_len : ∀ (n : Nat) (s : Bytes) (acc fs : List Bytes) (r : By
     split at h
     · cases h
     · have := restFields_len n _ _ _ _ h
-      simp at this; sorry
+      simp at this; omega
 
 theorem idx_zero_ok {s : Bytes} {c : Nat} (h : idx s 0 = .ok c) : ∃ r, s = c :: r := by
   cases s with
